@@ -30,6 +30,10 @@ NATIVE = {
 
 
 def conc(c):
+    if c in ("prop_int", "prop_unit"):
+        return odml.Property(name="src", dtype="int", values=[5, 6], unit="mV" if c == "prop_unit" else None)
+    if c == "prop_str":
+        return odml.Property(name="src", dtype="string", values=["x", "y"])
     v = CLASSES[c]
     return list(v) if isinstance(v, list) else (dict(v) if isinstance(v, dict) else v)
 
@@ -149,6 +153,7 @@ SC = ["int", "int0", "negint", "float_i", "float_f", "true", "false", "str", "te
       "s_date", "s_time", "s_datetime", "date", "time", "time_us", "datetime", "datetime_us", "tuple2", "tuple3",
       "bracketed", "dict", "none", "empty", "elist", "edict", "datetime_tz", "time_tz", "inf", "bigint", "s_int_ws", "s_float_exp", "tuple2e", "tuple3e"]
 LC = ["list_int", "list_str", "list_mixed", "list_s_int", "list_tuple2"]
+PC = ["prop_int", "prop_str", "prop_unit"]
 DTS = list(NATIVE)
 
 
@@ -164,7 +169,7 @@ def replay_history(t):
             if nm == "set_values":
                 op = {"name": nm, "in": rng.choice(SC + LC)}
             elif nm in ("append", "extend"):
-                op = {"name": nm, "in": rng.choice(SC + LC), "strict": rng.random() < 0.5}
+                op = {"name": nm, "in": rng.choice(SC + LC + (PC if nm == "extend" else [])), "strict": rng.random() < 0.5}
             elif nm == "insert":
                 op = {"name": nm, "i": rng.choice([0, 1, 5]), "in": rng.choice(SC), "strict": rng.random() < 0.5}
             elif nm == "setitem":
